@@ -3,6 +3,7 @@ import copy, random, itertools
 from harness import common as H
 
 PROP = "C12"
+NONE = -987654      # stands for the leaf default None ("no empty value") in cases and on the model side
 RULE = ("cases = (query, tree(s), defaults, free/tensor-owned). small scope: all pairs of leaf fibers over 3 "
         "coordinates x {absent, explicit default, v1, v2}, all pairs of depth-2 trees over 2x2 coordinates "
         "x {absent, empty sub-fiber, explicit default, v}; random depth 1-3 pairs incl. b = a changed in one "
@@ -76,22 +77,35 @@ def gen(seed, tier):
     nrand = 10000 if tier == "quick" else 80000
     for i in range(nrand):
         d = rng.choice([0, 1, 1, 2])
-        da = rng.choice([0, 0, 7])
-        db = da if rng.random() < 0.85 else rng.choice([0, 7])
+        da = rng.choice([0, 0, 7, 0, 0, 7, NONE])
+        db = da if (rng.random() < 0.85 or da == NONE) else rng.choice([0, 7])
         n = rng.choice([3, 4, 6])
-        a = H.gen_tree(rng, d + 1, n, (1, 2, -3, 7, 0), da)
+        # leaf default None ("no empty value", NONE stands for it on the model side): every stored leaf counts,
+        # zeros included; the only residue such a tree can hold is an empty sub-fiber
+        a = H.gen_tree(rng, d + 1, n, (1, 2, -3, 7, 0), 0 if da == NONE else da)
         kind = "owned" if rng.random() < 0.4 else "free"
         r = rng.random()
         if r < 0.25:
-            b = H.gen_tree(rng, d + 1, n, (1, 2, -3, 7, 0), db)
+            b = H.gen_tree(rng, d + 1, n, (1, 2, -3, 7, 0), 0 if db == NONE else db)
         elif r < 0.5:
             b = _mutate_leaf(rng, a, d + 1, da) or []
-        elif r < 0.75:
+        elif r < 0.75 and da != NONE:
             b = _add_residue(rng, a, d + 1, db, n)
         else:
             b = copy.deepcopy(a)
         op = rng.choice(["eq", "eq", "eq", "teq", "teq", "isempty", "count", "tcount", "nonempty"])
-        case = {"prop": PROP, "op": op, "d": d, "da": da, "a": a, "kind": kind, "fdflt": rng.random() < 0.15}
+        case = {"prop": PROP, "op": op, "d": d, "da": da, "a": a, "kind": kind,
+                "fdflt": rng.random() < 0.15 and da != NONE}
+        if da == NONE:
+            if op in ("eq", "teq"):
+                case.update({"db": db, "b": b})
+            if op == "teq":
+                ids = [f"R{d - k}" for k in range(d + 1)]
+                case.update({"idsA": ids, "idsB": list(ids), "kind": "owned"})
+            if op == "tcount":
+                case["kind"] = "owned"
+            yield case
+            continue
         if op in ("eq", "teq", "isempty", "count") and rng.random() < 0.15:
             # leaf values (and defaults) mapped injectively to floats that differ only around the 10th digit:
             # equality, emptiness and counting are exact, not approximate
@@ -141,6 +155,24 @@ def run(case):
     ft = H.ft()
     d, op = case["d"], case["op"]
     da = case["da"]
+    if da == NONE:
+        case = dict(case)
+        return _restore_none(_run(dict(case, da=None, db=None if case.get("db") == NONE else case.get("db"))), case)
+    return _run(case)
+
+
+def _restore_none(res, case):
+    """the model side keeps the stand-in NONE for the default None"""
+    res["da"] = case["da"]
+    if "db" in case:
+        res["db"] = case["db"]
+    return res
+
+
+def _run(case):
+    ft = H.ft()
+    d, op = case["d"], case["op"]
+    da = case["da"]
     if case.get("fdflt"):
         da = float(da)
     near = case.get("near")
@@ -150,7 +182,9 @@ def run(case):
 
     def nmap(tree, depth):
         return [[c, (fmap(p) if depth == 1 else nmap(p, depth - 1))] for c, p in tree]
-    ta_tree, tb_tree = case["a"], case.get("b")
+    # running a case twice must observe the same thing: the tree the case started from is kept in "a0" when a
+    # structural mutation rewrites "a" (what the model is asked about)
+    ta_tree, tb_tree = case.get("a0", case["a"]), case.get("b")
     if near:
         ta_tree = nmap(ta_tree, d + 1)
         tb_tree = nmap(tb_tree, d + 1) if tb_tree is not None else None
@@ -188,6 +222,7 @@ def run(case):
             fa.append(where, subf)
         else:
             fa[where] = subf
+        case.setdefault("a0", case["a"])
         case["a"] = H.snapshot(fa)
     before = ([H.snapshot(o) for o in objs], [_ranks(t) for t in tensors])
     side = {}
